@@ -438,3 +438,59 @@ PROPS["C15"] = {'claimed': False,
                 'C15_routing, C15_round_robin, C15_zero_apps) are open',
  'design_ref': 'DESIGN.md section 4, C15',
  'assumptions': ['0..3 scripted applications']}
+
+PROPS["C19"] = {'coq': 'Properties/C19.v',
+ 'domains': ['gsd'],
+ 'nontrivial': ['interp:tree'],
+ 'rule': 'cases = corpus (F8 witnesses, the inputs of tests/parser_panic.rs) + generated: mock.gsd, ~1500 texts rendered from random station '
+         "descriptions by the harness's GSD pretty-printer under random lexical styles (keyword case, blanks/tabs, comments, line continuations in "
+         'white space / number lists / strings, LF / CR LF / lone CR, preamble, ignored settings and blocks; every 5th is a settings-only file), '
+         '~3000 grammar-aware mutations of those and of mock.gsd (value kind swaps, numeric extremes and overflow, unknown data types, dangling '
+         'references, dropped (n) / parentheses, deleted / duplicated / swapped lines, emptied or unterminated blocks, ~100 directed snippets), ~700 '
+         'token/line soups, ~300 random byte strings; deduplicated; thorough = 12x. non-trivial = distinct cases whose text pest accepts, i.e. that '
+         'reach the interpretation step with a pair tree (STAT interp:tree:<size bucket>)',
+ 'trusted_base': ['the pest library 2.9.1 (text -> pair tree for gsd.pest: PEG matching, implicit WHITESPACE/COMMENT skipping, atomic/silent rules, '
+                  "error construction and formatting) is NOT modelled: it is run, in the crate and in the harness's own parser compiled from a copy "
+                  'of the same gsd.pest; its no-panic behaviour is only tested (all generated texts incl. random bytes)',
+                  'hand model coq/Model/GsdInterp.v of gsd-parser/src/parser.rs parse_inner after pest (helpers, statement loop, post-processing), '
+                  "tied by differential execution on the REAL pair trees of this run's cases; Rust u32/i64 from_str_radix / str::parse / "
+                  'trim_start_matches / str::replace / to_lowercase (ASCII identifiers) / BTreeMap order as modelled there; usize = 64 bit',
+                  'gen/tr_gsd.py: rule enumeration and grammar value from gsd.pest, scalar fields/types/defaults and SupportedSpeeds masks from '
+                  'lib.rs, the key -> action table of the top-level setting match and the data type names from parser.rs (regenerated on this run)',
+                  "coq/Model/Peg.v: PEG interpreter with pest's semantics (implicit skipping, atomic/silent rules, lookahead, pair production), "
+                  "written from pest_generator's generator.rs - validated against the real pest parser at tree level on every case of this run; the "
+                  'shape predicate (GsdShape.child_rx) is PROVED to hold for every tree Peg.v returns and is additionally checked on every real pair '
+                  'tree',
+                  "the harness's GSD pretty-printer and description generator (fidelity oracle: parse(render(d, style)) = d)"],
+ 'technique': 'Coq proof (totality of the interpretation step over all grammar-shaped pair trees; settings-fragment round trip) + differential '
+              'correspondence model vs crate on real pest pair trees + differential round trip on the implementation',
+ 'level_text': "No-panic half: machine-checked (Coq 8.16.1, closed under the global context) that the Gallina model of parser.rs's interpretation "
+               "step - with every unwrap/expect/assert!/unreachable!/panic! as an explicit panic outcome - returns a description or the parser's "
+               'error for EVERY pair tree of the shape the grammar prescribes (Shape, computed from the grammar value translated from gsd.pest; '
+               'structural induction, no fuel). On the unchanged tree this is false at 14 sites (F8: five defect classes, repaired by five minimal '
+               'fix: commits; the model is of the repaired code, the witnesses are in the corpus). The model is tied to the crate on every run by '
+               'feeding the REAL pest pair tree of each case to the model and comparing OK-dump/ERR/PANIC with the real parser, and the shape '
+               'predicate is checked on every real tree. Fidelity half (partial): proved at tree level for the key = number|string settings fragment '
+               'under all spellings; every other statement kind and the lexical layer are validated by parse(render(d, style)) = d on the '
+               'implementation (oracle failures are violations).',
+ 'level_note': 'Trusted: Coq kernel, gen/tr_gsd.py, extraction + OCaml driver, Rust harness incl. its pretty-printer; the pest library (text -> pair '
+               'tree) is trusted and only tested; the hand model of the interpretation step is validated differentially, not verified against Rust.',
+ 'partial_gap': 'PROVED: (1) C19_interp_total / C19_interp_never_panics - for all pair trees t with Shape t (the grammar-derived shape), interp t is '
+                'Ok or Err, never a panic (all statement kinds, all helpers, post-processing); C19_tree_shape - the run-time checker shapeb decides '
+                'Shape; C19_peg_tree_shape / C19_text_level_no_panic - every pair tree that the PEG model of pest (Model/Peg.v) returns for ANY text '
+                'has that shape, hence no accepted text can make the interpretation panic; C19_model_never_panics - the text-level model gsd_model '
+                '(Peg.v then interp) has no panic outcome for any text. (2) C19_roundtrip_settings_partial - for files consisting of key = '
+                'number|string settings (known non-special keys in any letter case, or unknown keys; numbers as any decimal/0x-hex digit string '
+                "within the field's type; strings without back slash, cut by any line continuation markers; any preamble; no field written twice) "
+                'the interpretation of the pair tree yields exactly the written values, or-ed speed flags and defaults elsewhere; '
+                "C19_settings_tree_shape. ONLY VALIDATED (differential, this run's cases): that the real pest library behaves like Peg.v (same "
+                'accept/reject verdict and identical pair tree incl. leaf texts on every valid-UTF-8 case) and never panics itself; that pest maps '
+                "the rendered text to the tree of the theorem (white space, comments, line ends, CR/LF, preamble: every settings-only file's real "
+                'tree equals settings_tree of its decoded items); fidelity for Modular_Station/Max_Module, PrmText, ExtUserPrmData, modules, slots, '
+                'Ext_/User_Prm_Data, unit diagnostics (oracle parse(render(d, style)) = d on the implementation). NOT DONE: C19_parse_total '
+                '(termination of the PEG model within a linear fuel bound for all texts; peg_parse may in principle return OutOfFuel - it never did '
+                "on this run's cases), a text-level round trip theorem through Peg.v.",
+ 'design_ref': 'DESIGN.md section 4, C19 (pest itself remains a named, differentially validated oracle: section 10)',
+ 'assumptions': ['input is what gsd_parser::parse_from_file passes on: String::from_utf8_lossy of the file bytes',
+                 'entry points gsd_parser::parser::parse / parse_with_warnings (parse_from_file itself panics on Err by design)',
+                 '64-bit usize']}
